@@ -69,6 +69,9 @@ func (s *scheduler) pick(en []*goroutine, why string) *goroutine {
 		}
 	}
 	bound := s.r.eng.Opts.Preemptions
+	if s.r.eng.cfg.Preemptions > 0 {
+		bound = s.r.eng.cfg.Preemptions
+	}
 	if curEnabled && s.preemptions >= bound {
 		return s.cur
 	}
